@@ -10,6 +10,7 @@ import (
 	"time"
 
 	"pgregory.net/rapid"
+	"verif/elem"
 	"verif/vk"
 )
 
@@ -24,11 +25,25 @@ var genWorkload = rapid.Custom(func(t *rapid.T) Workload {
 		Spin:  rapid.SampledFrom([]int{0, 0, 50, 500, 5000}).Draw(t, "spin"),
 		Yield: rapid.IntRange(0, 7).Draw(t, "yield"),
 	}
+	if rapid.Bool().Draw(t, "kinded") {
+		// half of the workloads keep Cache[int, Val]
+		w.Elem = rapid.SampledFrom([]string{"", elem.Ptr, elem.Ptr, elem.Str}).Draw(t, "elem")
+		w.KElem = rapid.SampledFrom([]string{"", elem.Str, elem.Wide}).Draw(t, "kelem")
+	}
+	if rapid.IntRange(0, 2).Draw(t, "store") == 0 {
+		w.Store = "user"
+	}
+	if rapid.IntRange(0, 4).Draw(t, "sequential") == 0 {
+		w.G = [][]WOp{genSequential(t, &w)}
+		return w
+	}
 	ng := rapid.IntRange(2, 4).Draw(t, "ng")
 	// Focus modes: a narrow key range and values nearly as large as the limit
 	// keep the cache at one or two entries, so that replacing and
-	// everything-evicting Puts overlap reads of the same key.
-	nkeys := rapid.SampledFrom([]int{4, 4, 2, 2, 1}).Draw(t, "nkeys")
+	// everything-evicting Puts overlap reads of the same key.  At most 5 keys:
+	// zero-size values do not count against the limit, and the cache has to
+	// stay at <= 5 entries (known finding F2).
+	nkeys := rapid.SampledFrom([]int{5, 4, 4, 2, 2, 1}).Draw(t, "nkeys")
 	bigVals := rapid.IntRange(0, 2).Draw(t, "bigvals") == 0
 	kinds := wopKinds
 	if nkeys <= 2 {
@@ -55,6 +70,48 @@ var genWorkload = rapid.Custom(func(t *rapid.T) Workload {
 	return w
 })
 
+// genSequential draws the calls of a workload with ONE goroutine: no two calls
+// overlap, so the linearizability check admits exactly one order and compares
+// every result with the reference LRU.  The calls fill the cache to its limit
+// (4 or 5 entries of size 1, so the recency heap has >= 4 slots), Remove one
+// of the older entries (the heap moves its last entry into the hole), Get one
+// of the others at once and then Put fresh keys until everything that was
+// there has been evicted; random calls may precede and follow.  All sizes are
+// 1: with more keys than the limit a zero-size value would let the cache grow
+// beyond 5 entries.
+func genSequential(t *rapid.T, w *Workload) []WOp {
+	w.Limit = rapid.IntRange(4, 5).Draw(t, "seqLimit")
+	nkeys := 2*w.Limit + 1
+	key := rapid.IntRange(0, nkeys-1)
+	random := func(label string, max int) []WOp {
+		var ops []WOp
+		for n := rapid.IntRange(0, max).Draw(t, label); n > 0; n-- {
+			op := WOp{Kind: rapid.SampledFrom(wopKindsFocus).Draw(t, "k")}
+			switch op.Kind {
+			case "put":
+				op.K, op.S = key.Draw(t, "key"), 1
+			case "get", "has", "remove":
+				op.K = key.Draw(t, "key")
+			}
+			ops = append(ops, op)
+		}
+		return ops
+	}
+	var ops []WOp
+	if rapid.Bool().Draw(t, "prefix") {
+		ops = random("npre", 6)
+	}
+	for k := 0; k < w.Limit; k++ {
+		ops = append(ops, WOp{Kind: "put", K: k, S: 1})
+	}
+	ops = append(ops, WOp{Kind: "remove", K: rapid.IntRange(0, w.Limit-2).Draw(t, "rm")},
+		WOp{Kind: "get", K: rapid.IntRange(0, w.Limit-1).Draw(t, "touch")})
+	for k := 0; k < w.Limit+1; k++ {
+		ops = append(ops, WOp{Kind: "put", K: w.Limit + k, S: 1})
+	}
+	return append(ops, random("npost", 8)...)
+}
+
 func init() {
 	vk.Register("C09", "conc", runConcReplay)
 	vk.Register("C09", "bigclear", runBigClear)
@@ -73,6 +130,10 @@ func TestC09BigClear(t *testing.T) {
 			Procs:   []int{2, 4, 16}[rng.Intn(3)],
 			Spin:    []int{0, 50, 500, 3000}[rng.Intn(4)],
 		}
+		if i%2 == 1 { // every other case cycles through the kinds
+			c.Elem = []string{elem.Ptr, elem.Str, ""}[(i/2)%3]
+			c.KElem = []string{elem.Str, elem.Wide, "", elem.Wide}[(i/2)%4]
+		}
 		b, _ := json.Marshal(c)
 		rf, _ := json.MarshalIndent(vk.ReplayFile{Property: "C09", Leg: "bigclear", Message: "workload that was executing when the race detector stopped the process", Case: b}, "", " ")
 		os.WriteFile(filepath.Join(h.OutDir, "current.json"), rf, 0o644)
@@ -86,6 +147,8 @@ func TestC09BigClear(t *testing.T) {
 			tl.Classes["a_reader_saw_both_states(overlap)"]++
 		}
 		tl.Classes[fmt.Sprintf("entries=%d", c.N)]++
+		tl.Classes["elem="+kindName(c.Elem, "Val")]++
+		tl.Classes["kelem="+kindName(c.KElem, elem.Int)]++
 		if i%17 == 3 {
 			h.Sample(c, overlapped)
 		}
@@ -152,6 +215,12 @@ func TestC09Conc(t *testing.T) {
 			tl.NT++ // distinct workloads (distinct Example seeds) with at least one overlapping execution
 		}
 		tl.Classes[fmt.Sprintf("procs=%d", w.Procs)]++
+		tl.Classes["elem="+kindName(w.Elem, "Val")]++
+		tl.Classes["kelem="+kindName(w.KElem, elem.Int)]++
+		tl.Classes["store="+kindName(w.Store, "LRU")]++
+		if len(w.G) == 1 {
+			tl.Classes["sequential_workload(one goroutine)"]++
+		}
 	}
 	if unknown > 0 {
 		tl.Classes["linearizability_unknown(timeout)"] = int64(unknown)
